@@ -331,6 +331,12 @@ pub fn specials() -> Vec<Spec> {
         k(3),
         // repeated content at several positions
         n(l(1), vec![a(l(2), l(1)), a(l(3), w(l(1))), a(l(2), l(4))]),
+        // several obscured assertion elements side by side (same kind, mixed kinds)
+        n(l(1), vec![el(a(l(2), l(3))), el(a(l(4), l(5))), a(l(6), l(7))]),
+        n(l(1), vec![en(a(l(2), l(3))), co(a(l(4), l(5))), el(a(l(6), l(7)))]),
+        // predicate and object with the same digest in different obscuration states
+        n(l(1), vec![a(el(l(2)), l(2)), a(l(3), co(l(3)))]),
+        a(en(l(1)), l(1)),
     ]
 }
 
